@@ -1,6 +1,7 @@
 # Copyright 2020 National Technology & Engineering Solutions of Sandia, LLC (NTESS).
 # Under the terms of Contract DE-NA0003525 with NTESS, the U.S. Government retains
 # certain rights in this software.
+from jaqalpaq.error import JaqalError
 from jaqalpaq.core import (
     GateStatement,
     BlockStatement,
@@ -188,5 +189,22 @@ def generate_jaqal_value(val):
         or isinstance(val, AnnotatedValue)
     ):
         return val.name
-    elif isinstance(val, float) or isinstance(val, int):
+    elif isinstance(val, float):
+        return generate_jaqal_float(val)
+    elif isinstance(val, int):
         return str(val)
+
+
+def generate_jaqal_float(val):
+    """Write a float so that the Jaqal lexer reads the same value back. A
+    Jaqal number needs a decimal point, which Python omits from the mantissa
+    in exponent notation (1e-06)."""
+    if val != val or val in (float("inf"), float("-inf")):
+        raise JaqalError(f"Cannot write non-finite number {val} in Jaqal")
+    text = repr(val)
+    if "e" in text:
+        mantissa, exponent = text.split("e")
+        if "." not in mantissa:
+            mantissa += ".0"
+        text = mantissa + "e" + exponent
+    return text
